@@ -200,11 +200,11 @@ theorem parsed_fuel_suffices (e : PEnv) (body : PL) (is : List (BInstr × Nat)) 
 /-! ### the visitor fails on a parsed body only if a lookup fails -/
 
 /-- the lookups the `Emit` visitor makes for one event, as far as a parsed body can ask for them:
-    the entity operands of a plain instruction (labels are not entities; a type operand is one of
-    the module's type ids) and the type of a sequence -/
+    the entity operands of a plain instruction (labels are not entities; every operand id came out
+    of the parse-time index → id maps) and the type of a sequence -/
 def evOKp (e : PEnv) (m : IdMaps) : EEv → Prop
-  | .instr (.leaf op) _ => ∀ sp n, Arg.ref sp n ∈ op.args → sp ≠ "l" → (sp = "y" → n ∈ e.types) →
-      (m.get sp n).isSome = true
+  | .instr (.leaf op) _ => ∀ sp n, Arg.ref sp n ∈ op.args → sp ≠ "l" → sp ∈ entSpaces →
+      (∃ i, e.get sp i = some n) → (m.get sp n).isSome = true
   | .start _ (.multi y) => y ∈ e.types → (assoc m.types y).isSome = true
   | _ => True
 
@@ -355,13 +355,12 @@ theorem outLeaf_total (e : PEnv) (m : IdMaps) (ids : List Nat) (o : Op) (loc : N
                 apply hev sp n hm
                 · intro hsp
                   subst hsp
-                  rcases hc.2 i hi' with h | h | h
+                  rcases hc.2.1 i hi' with h | h | h
                   · exact hb h
                   · exact hbi h
                   · exact hbt h
-                · intro hsp
-                  subst hsp
-                  exact penv_get_y e i n hg
+                · exact hc.2.2 sp i hi'
+                · exact ⟨i, hg⟩
               simp only [outArgs, hp, Option.bind_some, Option.isSome_map]
               exact hma
 
